@@ -1,4 +1,15 @@
+//! h_store — C21 (checkpoint storage crash consistency) and C45 (resilient sink + breaker contract).
+//! See DESIGN.md §3 and README-harness.md.
+
+mod c21;
+mod c45;
+
 fn main() {
     let args = mc::parse_args();
-    mc::machinery_error(&format!("{} is not built yet", args.prop));
+    mc::quiet_panics();
+    match args.prop.as_str() {
+        "C21" => c21::run(&args),
+        "C45" => c45::run(&args),
+        other => mc::machinery_error(&format!("h_store serves C21 and C45, not {other}")),
+    }
 }
